@@ -778,7 +778,7 @@ def run(ctx):
 
 
 MANIFEST = dict(
-    text='Decides structural necessary conditions for all repetition kinds: exhaustive kind coverage in every consumer; get_offsets writes the zero vector first and exactly get_count() vectors per kind; get_extrema returns exactly the lattice corners for each columns/rows degeneracy combination (symbolic corner algebra) and keeps a consistent running min/max for explicit kinds; the five apply_repetition bodies are one clone family with clear() dominating every copy and count-1 copies from the second offset, and the five element copy_from functions they use copy every field from the same field of the source (owning fields through their copier); Repetition::transform depends, on every one of the 8 parameter valuations and for every kind, on each non-neutral parameter (path enumeration over predicate atoms), retags exactly when the kind cannot represent the image, and - folding the statements executed on each of the 40 (kind, valuation) paths into polynomials over magnification, cos/sin(rotation) and the input components - stores exactly m R(rotation) diag(1, +-1) applied to the original vectors. Numeric values of offsets/extremes are not decided.',
+    text='Decides structural necessary conditions for all repetition kinds: exhaustive kind coverage in every consumer; get_offsets writes the zero vector first and exactly get_count() vectors per kind; get_extrema returns exactly the lattice corners for each columns/rows degeneracy combination (symbolic corner algebra) and keeps a consistent running min/max for explicit kinds; the five apply_repetition bodies are one clone family with clear() dominating every copy and count-1 copies from the second offset, and the five element copy_from functions they use copy every field from the same field of the source (owning fields through their copier); Repetition::transform depends, on every one of the 8 parameter valuations and for every kind, on each non-neutral parameter (path enumeration over predicate atoms), retags exactly when the kind cannot represent the image, and - folding the statements executed on each of the 40 (kind, valuation) paths into polynomials over magnification, cos/sin(rotation) and the input components - stores exactly m R(rotation) diag(1, +-1) applied to the original vectors. Numeric values of offsets/extremes are not decided. Repetition::get_extrema and get_offsets are interpreted on 61 small repetitions of every kind: the extremes are members of the displacement set and span exactly its bounding box; every Reference::get_* passes each appended element through repetition.transform of that element (R-MUSTPASS).',
     note='Trusted: clang front end, gx, sa rules; exemption: ExplicitX is invariant under x-reflection (stated in the checker). Corner algebra recognises Vec2{a,b}, k*v, v+w and single-initialiser locals only; anything else is reported as uninterpretable (violation naming the expression).',
-    technique='enum exhaustiveness + symbolic per-arm evaluation + predicate-atom path enumeration (dependence) + clone families',
+    technique='enum exhaustiveness + symbolic per-arm evaluation + predicate-atom path enumeration (dependence) + clone families + interpretation of get_extrema / get_offsets on small repetitions (sa/minieval) + CFG dominance (R-MUSTPASS)',
     design='§4 C11')
